@@ -198,6 +198,28 @@ def labels_of(prog_nodes):
     return sorted(ls)
 
 
+def solve_cvc5(items, timeout_ms=20000):
+    """Second opinion (used on the small families): the same queries through cvc5."""
+    lines = ["(set-logic QF_ABV)", "(declare-const M (Array (_ BitVec 32) (_ BitVec 32)))"]
+    lines += ["(declare-const r%d (_ BitVec 32))" % i for i in range(1, 32)]
+    lines += ["(declare-const e%d (_ BitVec 32))" % i for i in range(1, 32)]
+    for i, (decls, q) in enumerate(items):
+        lines.append("(push 1)")
+        lines += decls
+        lines += ["(assert %s)" % q, '(echo "Q%d")' % i, "(check-sat)", "(pop 1)"]
+    p = subprocess.run(["cvc5", "--incremental", "--lang", "smt2", "--tlimit-per=%d" % timeout_ms], input="\n".join(lines) + "\n",
+                       stdout=subprocess.PIPE, stderr=subprocess.STDOUT, text=True, timeout=3600)
+    chunks = re.split(r'^"?Q(\d+)"?$', p.stdout, flags=re.M)
+    res = {}
+    for k in range(1, len(chunks), 2):
+        c = chunks[k + 1]
+        st = (c.strip().split("\n") or ["?"])[0].strip()
+        res[int(chunks[k])] = "error" if "(error" in c else (st if st in ("sat", "unsat") else "unknown")
+    if "(error" in chunks[0]:
+        return ["error"] * len(items)
+    return [res.get(i, "error") for i in range(len(items))]
+
+
 def solve(items, timeout_ms=20000):
     """items: list of (decls, query).  One z3 process, push/pop per query."""
     lines = ["(set-logic QF_ABV)", "(set-option :produce-models true)", "(declare-const M (Array (_ BitVec 32) (_ BitVec 32)))"]
@@ -262,6 +284,12 @@ def run(programs, cvc5_crosscheck=True):
             meta.append((r, what, idx, nodes))
         r["queries"] = len(vcs)
     verdicts = solve(items) if items else []
+    # diff two solvers: on families small enough, every verdict is cross-checked with cvc5
+    if items and len(items) <= 12000 and cvc5_crosscheck:
+        second = solve_cvc5(items)
+        for i, (a, b) in enumerate(zip(verdicts, second)):
+            if {a, b} == {"sat", "unsat"}:
+                verdicts[i] = "disagree"
     for (r, what, idx, nodes), v, (decls, q) in zip(meta, verdicts, items):
         if v == "unsat":
             continue
